@@ -120,6 +120,7 @@ fn main() {
         part: Some((args[6].parse().unwrap_or_else(|_| usage()), args[7].parse().unwrap_or_else(|_| usage()))),
         lane_index: li,
         tier_quick: args[8] == "quick",
+        collect_hashes: false,
       };
       let known = core::known::Known::load(&format!("{}/known_findings.json", verif_dir));
       println!("{}", (lane.scan_json)(&cfg, &known));
@@ -132,7 +133,7 @@ fn main() {
       std::process::exit(registry::replay(&args[2]));
     }
     "selftest" => {
-      std::process::exit(registry::selftest(&args[2..]));
+      std::process::exit(registry::selftest(&args[1..]));
     }
     _ => usage(),
   }
